@@ -53,7 +53,9 @@ class Prop:
     def targets(self): return self.coq_targets or ['Props/%s.vo' % self.id]
 
 # ------------------------------------------------------------------ execution
-def execute(items, stages, needs, tag, jobs=16, timeout=900):
+SINGLE_TIMEOUT = 30     # one conversion of one generated input never legitimately takes this long (debug build)
+
+def execute(items, stages, needs, tag, jobs=16, timeout=900, impl_timeout=300):
     """fills run.impl / run.model / run.div for every run of every item"""
     runs = {}
     for it in items:
@@ -78,13 +80,15 @@ def execute(items, stages, needs, tag, jobs=16, timeout=900):
         if 'S6' in stages or 'svg' in needs:
             cases.append(proto.Case('s%d' % i, 'svg:' + r.entry, r.spec, r.text))
     wd = os.path.join(WORK, tag)
-    impl, _, nondet, problems = proto.run_both(cases, os.path.join(wd, 'impl'), jobs=jobs, want_model=False)
+    impl, _, nondet, problems = proto.run_both(cases, os.path.join(wd, 'impl'), jobs=jobs, want_model=False, impl_timeout=impl_timeout)
     # a shard that died (abort, stack overflow, timeout) leaves results missing: rerun its cases one by one
     missing = [c for c in cases if c.id not in impl]
     crashed = {}
     if missing:
+        t_single = time.time()
         for c in missing[:200]:
-            i2, _, _, pr = proto.run_both([c], os.path.join(wd, 'impl1'), jobs=1, want_model=False)
+            if len(crashed) >= 8 or time.time() - t_single > 600: break      # enough evidence; do not spend the run on hangs
+            i2, _, _, pr = proto.run_both([c], os.path.join(wd, 'impl1'), jobs=1, want_model=False, impl_timeout=min(impl_timeout, SINGLE_TIMEOUT))
             if c.id in i2: impl[c.id] = i2[c.id]
             else: crashed[c.id] = 'PANIC process died: %s' % (pr[0][2:] if pr else '?',); impl[c.id] = crashed[c.id]
     for t in tlist:
@@ -131,12 +135,12 @@ def execute(items, stages, needs, tag, jobs=16, timeout=900):
             'crashed': len(crashed), 'unique_runs': len(uniq), 'unique_texts': len(tlist)}
 
 # ------------------------------------------------------------------ shrinking
-def shrink_text(text, still_fails, budget=120):
-    """delete rows, delete columns, blank cells while the failure persists"""
-    best = text; tries = 0
+def shrink_text(text, still_fails, budget=120, wall=240):
+    """delete rows, delete columns, blank cells while the failure persists (bounded in attempts and in time)"""
+    best = text; tries = 0; t_start = time.time()
     def attempt(t):
         nonlocal best, tries
-        if tries >= budget or t == best: return False
+        if tries >= budget or t == best or time.time() - t_start > wall: return False
         tries += 1
         try:
             if still_fails(t): best = t; return True
@@ -341,13 +345,13 @@ def main(prop, argv):
             if it.factory and len(it.runs) >= 1:
                 def still(t, it=it):
                     cand = it.factory(t)
-                    execute([cand], (), prop.needs, prop.id + '_shrink', jobs=1)
+                    execute([cand], (), prop.needs, prop.id + '_shrink', jobs=1, impl_timeout=SINGLE_TIMEOUT)
                     return bool([f for f in prop.oracle(cand) if not prop.known(cand, f)])
                 try:
                     t0s = it.meta.get('text', next(iter(it.runs.values())).text)
                     ts = shrink_text(t0s, still)
                     if ts != t0s:
-                        small = it.factory(ts); execute([small], prop.stages, prop.needs, prop.id + '_shrink', jobs=1)
+                        small = it.factory(ts); execute([small], prop.stages, prop.needs, prop.id + '_shrink', jobs=1, impl_timeout=SINGLE_TIMEOUT)
                         small.failures = [f for f in prop.oracle(small) if not prop.known(small, f)]
                 except Exception: small = it
             payload = {'kind': 'failing-input', 'item': small.to_json(), 'failures': small.failures[:5], 'original_item': it.to_json(),
